@@ -15,6 +15,7 @@ import (
 	"github.com/specterops/dawgs/cypher/models/cypher"
 	"github.com/specterops/dawgs/graph"
 	"github.com/specterops/dawgs/util/size"
+	"github.com/specterops/dawgs/verifsim/simrt"
 )
 
 type Node struct {
@@ -103,6 +104,7 @@ func (g *GraphData) node(id graph.ID) *Node {
 }
 
 func (d *DB) hook(ctx context.Context, site string) error {
+	simrt.Yield() // every database call is a scheduling point for the calling task
 	d.Calls++
 	if d.Hook != nil {
 		return d.Hook(ctx, site)
